@@ -1123,40 +1123,33 @@ def _ops_rebuildable(ctx, model, ops):
     ctx.floor("variadic tuple-state operation classes", n, 1)
     # construction sites in the converters agree with the constructor
     to = model.cls(f"{TF}:ToMatchpyExpressionMapper")
+    tuple_state = {c.name for c in opbase
+                   if c.members.get("arity") is not None and "variadic" in
+                   ast.unparse(c.members["arity"].node.value
+                               if c.members["arity"].kind == "ann"
+                               else c.members["arity"].node)
+                   and len(_op_fields(model, c)) == 1}
     bad = []
     n_sites = 0
     for mem in to.members.values():
         if mem.kind != "func":
             continue
         for call in ast.walk(mem.node):
-            if isinstance(call, ast.Call) and isinstance(call.func, ast.Attribute) \
-                    and call.func.attr in {c.name for c in opbase} and \
-                    call.func.attr in {k.name for k in opbase
-                                       if k.name in star_classes or True}:
-                cname = call.func.attr
-                if cname not in {c.name for c in opbase if c.name in star_classes
-                                 } | {c.name for c in opbase}:
-                    continue
-                takes_star = cname in star_classes
-                tuple_field_cls = cname in {
-                    c.name for c in opbase
-                    if c.members.get("arity") is not None and "variadic" in
-                    ast.unparse(c.members["arity"].node.value
-                                if c.members["arity"].kind == "ann"
-                                else c.members["arity"].node)
-                    and len(_op_fields(model, c)) == 1}
-                if not tuple_field_cls:
-                    continue
-                n_sites += 1
-                passes_star = any(isinstance(a, ast.Starred) for a in call.args)
-                one_collection = len(call.args) == 1 and not passes_star
-                if takes_star and one_collection:
-                    bad.append((mem, call, "passes one collection to a "
-                                "constructor that takes *operands: the whole "
-                                "collection becomes a single operand"))
-                if not takes_star and passes_star:
-                    bad.append((mem, call, "unpacks the operands into a "
-                                "constructor that takes one tuple"))
+            if not (isinstance(call, ast.Call)
+                    and isinstance(call.func, ast.Attribute)
+                    and call.func.attr in tuple_state):
+                continue
+            n_sites += 1
+            takes_star = call.func.attr in star_classes
+            passes_star = any(isinstance(a, ast.Starred) for a in call.args)
+            one_collection = len(call.args) == 1 and not passes_star
+            if takes_star and one_collection:
+                bad.append((mem, call, "passes one collection to a "
+                            "constructor that takes *operands: the whole "
+                            "collection becomes a single operand"))
+            if not takes_star and passes_star:
+                bad.append((mem, call, "unpacks the operands into a "
+                            "constructor that takes one tuple"))
     ctx.floor("converter sites constructing a tuple-state operation", n_sites, 2)
     ctx.ob("S/matchpy/tuple-op/construction-agrees-with-init", not bad,
            to.loc(), "the converters pass operands the way the constructor "
